@@ -13,6 +13,7 @@ def exec_corpus(tier, seed, n=None):
         g = oalgen.Gen(random.Random(rnd.randint(0, 10 ** 9)), maxdepth=rnd.choice([2, 3, 3, 4]), parens=0.1,
                        syntax_only=False)
         g.no_division = True
+        g.casevars = (k % 3 == 2)       # variables that differ in letter case only
         progs.append(g.program(nstmts=rnd.randint(3, 9), setup=(k % 4 != 0), patterns=('select' if k % 10 == 3 else 'literal' if k % 10 == 7 else k % 5 == 1)))
     return progs
 
